@@ -1,0 +1,10 @@
+//go:build !verif
+
+package stackage
+
+/*
+verifPoint is a no-op unless the package is built with the
+`verif` build tag (see verif_on.go), in which case it reports
+lock life-cycle events to an externally installed observer.
+*/
+func verifPoint(string, *stack) {}
